@@ -35,8 +35,8 @@ POISON = 170
 
 TIERS = {
     # files x steps of random history, H=5 model-checking budget (s)
-    "quick": dict(hist_files=16, hist_steps=4000, mc5_timeout=0, sample_mod=1),
-    "thorough": dict(hist_files=64, hist_steps=30000, mc5_timeout=780, sample_mod=350),
+    "quick": dict(hist_files=16, hist_steps=4000, mc5_timeout=0),
+    "thorough": dict(hist_files=64, hist_steps=30000, mc5_timeout=780),
 }
 
 
@@ -84,7 +84,8 @@ def run_harness(script_path, trace_path, timeout=600):
         raise vlib.MachineryError("ivh_avl failed on %s: rc=%d %s" % (script_path, rc, out[-500:]))
     status = "ok"
     if rc < 0:
-        status = "crash:" + {-11: "SIGSEGV", -14: "no return within 5 s (SIGALRM)", -6: "SIGABRT",
+        status = "crash:" + {-11: "SIGSEGV", -26: "no return within 5 s of CPU time (SIGVTALRM)",
+                             -14: "no return (driver timeout)", -6: "SIGABRT",
                              -7: "SIGBUS", -8: "SIGFPE", -4: "SIGILL"}.get(rc, "signal %d" % -rc)
     data = vlib.read(trace_path, "rb") if os.path.exists(trace_path) else b""
     if not data.endswith(b"\n"):
@@ -228,7 +229,8 @@ def py_judge(pre, S, op, ret, post, fwd, bwd):
         S1 = S if dup else S | {op["n"]}
     v = set()
     if op["kind"] == "ins":
-        if dup and (ret != -1 or post != pre):
+        if dup and (ret != -1 or post["root"] != pre["root"] or any(
+                post[f][m - 1] != pre[f][m - 1] for m in S for f in ("left", "right", "parent", "height", "key"))):
             v.add("dup")
         if not dup and ret != 0:
             v.add("dup")
@@ -276,6 +278,22 @@ def py_validate(trace_path):
 
 
 # ------------------------------------------------------------------ TLC side
+class UniqueScratch:
+    """vlib.tlc names its metadir after a counter that concurrent threads can
+    read twice; hand it a scratch whose sub() never returns the same directory."""
+
+    def __init__(self, sc):
+        self.sc, self.n, self.lock = sc, 0, threading.Lock()
+
+    def sub(self, name):
+        with self.lock:
+            self.n += 1
+            return self.sc.sub("%s-u%d" % (name, self.n))
+
+    def path(self, *a):
+        return self.sc.path(*a)
+
+
 def tlc_validate(trace_path, nlines, sc):
     """TraceAvl on one trace.  Returns dict(viols={line: set(sigs)}, drift=[lines], cnt={...})."""
     if nlines == 0:
@@ -482,9 +500,11 @@ def nontrivial_hashes(trace_path):
 
 # ------------------------------------------------------------------ model checking + generation
 def progress_counts(out):
+    """States generated / distinct from the last Progress line (a run cut by
+    the outer timeout has no summary)."""
     g = d = 0
-    for m in re.finditer(r"Progress\(\d+\)[^:]*:\S* ([\d,]+) states generated[^,]*, ([\d,]+) distinct", out):
-        g, d = int(m.group(1).replace(",", "")), int(m.group(2).replace(",", ""))
+    for m in re.finditer(r"Progress\(\d+\) at [^\n]*?: (\d+) states generated[^\n]*?\) (\d+) distinct", out.replace(",", "")):
+        g, d = int(m.group(1)), int(m.group(2))
     return g, d
 
 
@@ -500,7 +520,7 @@ def run_mc(cfg, sc, seed, timeout, workers):
 
 def triples_of(r):
     ts = []
-    for s in vlib.printed(r["out"], "GEN"):
+    for s in sorted(vlib.printed(r["out"], "GEN")):      # 16 workers print in any order
         try:
             ts.append(json.loads(s))
         except ValueError:
@@ -563,7 +583,8 @@ def run(pid, tier, seed, replay=None):
     cfgt = TIERS[tier]
     harness()
     t0 = time.time()
-    with vlib.Scratch("verif-" + pid) as sc:
+    with vlib.Scratch("verif-" + pid) as sc0:
+        sc = UniqueScratch(sc0)
         batch = Batch(sc, rep)
         if replay:
             tp = sc.path("replay", "r.ndjson")
@@ -575,8 +596,7 @@ def run(pid, tier, seed, replay=None):
             rep.sample({"replay": vlib.read(replay).splitlines()[:4]})
             return rep.finish()
 
-        # ---- 1. model checking (the thorough H=5 run goes on in the background
-        #         while the real code is exercised)
+        # ---- 1. model checking: oracle self-test and H <= 4 (H = 5 comes last)
         mc_runs = {}
 
         def mc_job(j):
@@ -585,11 +605,6 @@ def run(pid, tier, seed, replay=None):
         small = vlib.parallel(mc_job, [("oracle", "MC_Avl_oracle.cfg", 600, 2),
                                        ("h4", "MC_Avl_quick.cfg", 900, max(2, vlib.NCPU - 4))], 2)
         mc_runs.update(small)
-        import concurrent.futures as cf
-        bg = None
-        if cfgt["mc5_timeout"]:
-            ex = cf.ThreadPoolExecutor(1)
-            bg = ex.submit(mc_job, ("h5", "MC_Avl_thorough.cfg", cfgt["mc5_timeout"], max(2, vlib.NCPU // 2)))
         model_viol = [(k, r["violated"]) for k, r in mc_runs.items() if r["violated"]]
 
         # ---- 2. spec -> code: replay every triple of H <= 4
@@ -617,8 +632,7 @@ def run(pid, tier, seed, replay=None):
                 f.write(gen_history(random.Random(rnd.getrandbits(48)), nkeys, cfgt["hist_steps"]))
             hjobs.append((sp, sc.path("hist", "h%d.ndjson" % i), True, True))
         lines_before = batch.lines
-        nproc = vlib.NCPU if not bg else max(4, vlib.NCPU // 2)
-        hres = batch.run(hjobs, nproc)
+        hres = batch.run(hjobs)
         hist_steps = batch.lines - lines_before - len(hjobs)
         rep.sample("history (script for the real code): " + " ; ".join(vlib.read(hjobs[0][0]).splitlines()[:14]) + " ...")
         if hres and hres[0].get("sample_line"):
@@ -627,9 +641,8 @@ def run(pid, tier, seed, replay=None):
         # ---- 4. thorough: the H = 5 exploration and its sampled triples
         exhaustive5 = False
         n5 = 0
-        if bg:
-            name, r5 = bg.result()
-            ex.shutdown()
+        if cfgt["mc5_timeout"]:
+            name, r5 = mc_job(("h5", "MC_Avl_thorough.cfg", cfgt["mc5_timeout"], vlib.NCPU))
             mc_runs[name] = r5
             exhaustive5 = bool(r5["complete"])
             if r5["violated"]:
@@ -677,7 +690,7 @@ def run(pid, tier, seed, replay=None):
                 exhaustive_scope="every height-balanced shape of height <= %d x every gap insert, duplicate insert "
                                  "and delete, in the model and (H <= 4) replayed on the real code" %
                                  (5 if exhaustive5 else 4))
-        if batch.cnt["ops"] == 0 or batch.cnt["dup"] == 0 or tri_nontriv == 0:
+        if not rep.viol and (batch.cnt["ops"] == 0 or batch.cnt["dup"] == 0 or tri_nontriv == 0):
             raise vlib.MachineryError("vacuous run: no calls / no duplicates / no rotations exercised")
     rep.assumptions += [
         "the comparator is a total order on integer keys; nodes outside the tree are never passed to delete",
